@@ -15,6 +15,7 @@
 #include <istream>
 #include <iterator>
 #include <limits>
+#include <optional>
 #include <ostream>
 #include <stdexcept>
 #include <string>
@@ -60,7 +61,22 @@ const verif::Info verif_info = {
     "high bytes; every string of length <= 5 (quick) or 6 (thorough) over a 16-symbol alphabet enumerated) x bases {0,2..36}: all 8 to_* members, with "
     "and without conversion_result, against strtol/strtoll/strtoul/strtoull called by the harness on its own NUL-terminated copy, narrowed with "
     "static_cast; ok <=> consumed>0, full_match <=> consumed==size. Non-trivial: printed value negative or >= base (two or more digits); parse input "
-    "with a partial match (consumed>0 and consumed<size) or a magnitude the C library reports as out of range.",
+    "with a partial match (consumed>0 and consumed<size) or a magnitude the C library reports as out of range. "
+    "Extension: every printed value also goes through from_int/from_uint with defaulted arguments, the deprecated from_int64/from_uint64 and back through "
+    "to_int64/to_uint64, through ST::uint_formatter<U> used directly (format/text/size, one object re-used for a long, the tested and a one-digit value, also "
+    "uint_formatter<unsigned char>), through ST::format(validation, ...), ST::format_latin_1, the _stfmt literal, two fields in one call and the argument "
+    "types signed/unsigned char, char, char8_t, char16_t, char32_t, wchar_t whenever the value fits; and is parsed with a conversion_result object that was "
+    "first used on a text producing each of the four flag combinations (\"\", \"1\", \" \", \"1 \") and is used on that text again afterwards. Parse "
+    "direction additionally: to_int64/to_uint64, every overload with the default base when base is 0, to_bool (base-0 cases: whole-text \"true\"/\"false\" "
+    "in any letter case are true/false with both flags, otherwise strtol's reading != 0 after narrowing to int - where narrowing long to int changes "
+    "zero-ness both answers are accepted), shared conversion_result objects (every member x every earlier state for texts <= 256 bytes, one hashed pair in "
+    "the enumerator and for long texts; a chain through all members with one object), subjects built through 10 construction routes (char8_t, std::u8string, "
+    "string_view, UTF-16, substr of a longer string, move, +=, default-constructed), texts of several KB (runs of 255..5000 blanks / zeros / digits, NUL "
+    "followed by a long continuation), a to_bool word class. Stream class: string_stream << {int, unsigned, long, unsigned long, long long, unsigned long "
+    "long, short, unsigned short} and ST::format of the same after 0..5000 bytes of earlier output reached in 7 ways (one append, many small appends, grown "
+    "then truncated, overfilled then erased, move-constructed, move-assigned over a grown stream, emptied and refilled), followed by 5 kinds of further "
+    "appends, compared byte for byte with a model; every fill level is enumerated. Non-trivial for the stream class: the number straddles or ends on a "
+    "capacity step (256 x 2^k), or the fill is beyond the in-object capacity.",
     true, "exploration"};
 
 namespace {
@@ -122,6 +138,15 @@ template <class T> ST::string lib_print(T v, int base, bool upper) {
     else return ST::string::from_uint(v, base, upper);
 }
 
+template <class T> ST::string lib_print_default_case(T v, int base) {
+    if constexpr (std::is_signed<T>::value) return ST::string::from_int(v, base);
+    else return ST::string::from_uint(v, base);
+}
+template <class T> ST::string lib_print_default_base(T v) {
+    if constexpr (std::is_signed<T>::value) return ST::string::from_int(v);
+    else return ST::string::from_uint(v);
+}
+
 // parse the printed text back through member R; must give `v` with both flags
 template <class R, class T> bool parse_back(const ST::string &s, int base, T v, std::string &why) {
     ST::conversion_result cr;
@@ -138,6 +163,166 @@ template <class R, class T> bool parse_back(const ST::string &s, int base, T v, 
     }
     return true;
 }
+
+// ---------------------------------------------------------------------------------------------
+// Further public routes of the print direction (added with the extension of this harness).
+
+template <class X, class T> bool fits_in(T v) {
+    const __int128 w = (__int128)v;
+    return w >= (__int128)std::numeric_limits<X>::min() && w <= (__int128)std::numeric_limits<X>::max();
+}
+
+// Four tiny texts whose parse (in any base) yields each of the four flag combinations: used to put a
+// conversion_result object into a known state before it is handed to another call ("re-use").
+struct Primer { const char *text; size_t n; bool ok, full; };
+const Primer kPrimers[4] = {{"", 0, false, true}, {"1", 1, true, true}, {" ", 1, false, false}, {"1 ", 2, true, false}};
+const ST::string &primer_string(int p) {
+    static const ST::string tab[4] = {ST::string::from_validated(kPrimers[0].text, kPrimers[0].n), ST::string::from_validated(kPrimers[1].text, kPrimers[1].n),
+                                      ST::string::from_validated(kPrimers[2].text, kPrimers[2].n), ST::string::from_validated(kPrimers[3].text, kPrimers[3].n)};
+    return tab[p & 3];
+}
+// bring `cr` into the state of primer p through a real library call; false if that call itself is wrong
+bool prime(ST::conversion_result &cr, int p, std::string &why) {
+    long got = primer_string(p).to_long(cr, 10);
+    const Primer &pr = kPrimers[p & 3];
+    if (cr.ok() != pr.ok || cr.full_match() != pr.full || got != (pr.ok ? 1 : 0)) {
+        why = std::string("to_long(result, 10) of ") + verif::quoted(std::string(pr.text, pr.n)) + " gives " + verif::num(got) + " ok=" + (cr.ok() ? "1" : "0") +
+              " full_match=" + (cr.full_match() ? "1" : "0") + ", expected " + (pr.ok ? "1" : "0") + " ok=" + (pr.ok ? "1" : "0") + " full_match=" + (pr.full ? "1" : "0");
+        return false;
+    }
+    return true;
+}
+
+// ST::uint_formatter<U> used directly: format()/text()/size(), one object re-used for several values
+template <class U> std::string check_uint_formatter(U mag, int base, bool upper, const std::string &digits) {
+    ST::uint_formatter<U> fm;
+    // first a value with the longest possible rendering and the other letter case, then the value under test: the second
+    // format() call must start afresh
+    fm.format(std::numeric_limits<U>::max(), 2, !upper);
+    if (fm.size() != (size_t)std::numeric_limits<U>::digits || std::string(fm.text(), fm.size()) != std::string((size_t)std::numeric_limits<U>::digits, '1'))
+        return "uint_formatter::format(max, 2) gives " + verif::quoted(std::string(fm.text(), fm.size())) + ", expected " + verif::num(std::numeric_limits<U>::digits) + " ones";
+    fm.format(mag, base, upper);
+    std::string got(fm.text(), fm.size());
+    if (got != digits)
+        return "uint_formatter<" + verif::num((long long)sizeof(U) * 8) + "-bit>::format(" + verif::unum((unsigned long long)mag) + ", " + verif::num(base) + (upper ? ", upper" : "") +
+               ") on a re-used formatter: text()/size() give " + verif::quoted(got) + ", canonical digits are " + verif::quoted(digits);
+    if (fm.text()[fm.size()] != 0) return "uint_formatter::text() is not NUL-terminated at size()";
+    if (!upper) {                                         // default upper_case argument, fresh object
+        ST::uint_formatter<U> f2;
+        f2.format(mag, base);
+        if (std::string(f2.text(), f2.size()) != digits)
+            return "uint_formatter::format(" + verif::unum((unsigned long long)mag) + ", " + verif::num(base) + ") gives " + verif::quoted(std::string(f2.text(), f2.size())) +
+                   ", canonical digits are " + verif::quoted(digits);
+        // and a third value on the first object: a short one after a long one
+        fm.format(U(mag % (unsigned)base), base);
+        if (fm.size() != 1 || fm.text()[0] != digits[digits.size() - 1] || fm.text()[1] != 0)
+            return "uint_formatter::format(last digit of " + verif::unum((unsigned long long)mag) + ", " + verif::num(base) + ") after a longer value gives " +
+                   verif::quoted(std::string(fm.text(), fm.size()));
+    }
+    return std::string();
+}
+
+// one alternate ST::format entry point / argument type; `what` names it in the message
+#define C12_EXPECT_FORMAT(EXPR, WHAT)                                                                                                       \
+    do { ST::string f_ = (EXPR); if (str_of(f_) != want) return std::string(WHAT) + " of " + vstr(v) + " gives " + verif::quoted(str_of(f_)) + \
+                                                              ", canonical text is " + verif::quoted(want); } while (0)
+
+template <class T> std::string check_print_extras(T v, int base, bool upper, const std::string &want, const ST::string &printed) {
+    using namespace ST::literals;
+    typedef typename std::make_unsigned<T>::type U;
+    const bool neg = v < 0;
+    const U mag = neg ? U(U(0) - U(v)) : U(v);
+    const std::string digits = neg ? want.substr(1) : want;
+    std::string why = check_uint_formatter<U>(mag, base, upper, digits);
+    if (!why.empty()) return why;
+    if (mag <= 0xFF) { why = check_uint_formatter<unsigned char>((unsigned char)mag, base, upper, digits); if (!why.empty()) return why; }
+
+    // default arguments
+    if (!upper) {
+        ST::string d1 = lib_print_default_case<T>(v, base);
+        if (str_of(d1) != want) return std::string("from_int/from_uint(") + type_name<T>() + " " + vstr(v) + ", " + verif::num(base) + ") gives " + verif::quoted(str_of(d1)) + ", canonical text is " + verif::quoted(want);
+        if (base == 10) {
+            ST::string d0 = lib_print_default_base<T>(v);
+            if (str_of(d0) != want) return std::string("from_int/from_uint(") + type_name<T>() + " " + vstr(v) + ") gives " + verif::quoted(str_of(d0)) + ", canonical text is " + verif::quoted(want);
+        }
+    }
+
+    // the fixed-width aliases: from_int64 / from_uint64 print, to_int64 / to_uint64 read back
+    const bool in_i64 = fits_in<int64_t>(v), in_u64 = fits_in<uint64_t>(v);
+    if (in_i64) {
+        ST::string a = ST::string::from_int64((int64_t)v, base, upper);
+        if (str_of(a) != want) return "from_int64(" + vstr(v) + ", " + verif::num(base) + (upper ? ", upper" : "") + ") gives " + verif::quoted(str_of(a)) + ", canonical text is " + verif::quoted(want);
+        if (!upper) {
+            ST::string b = ST::string::from_int64((int64_t)v, base);
+            if (str_of(b) != want) return "from_int64(" + vstr(v) + ", " + verif::num(base) + ") gives " + verif::quoted(str_of(b)) + ", canonical text is " + verif::quoted(want);
+            if (base == 10) { ST::string c = ST::string::from_int64((int64_t)v); if (str_of(c) != want) return "from_int64(" + vstr(v) + ") gives " + verif::quoted(str_of(c)); }
+        }
+        ST::conversion_result cr;
+        int64_t g = printed.to_int64(cr, base);
+        if (g != (int64_t)v || !cr.ok() || !cr.full_match())
+            return "to_int64(result, " + verif::num(base) + ") of " + verif::quoted(want) + " gives " + verif::num(g) + " ok=" + (cr.ok() ? "1" : "0") + " full_match=" + (cr.full_match() ? "1" : "0") + ", expected " + vstr(v) + " with ok and full_match";
+        if (printed.to_int64(base) != (int64_t)v) return "to_int64(" + verif::num(base) + ") of " + verif::quoted(want) + " gives " + verif::num(printed.to_int64(base)) + ", expected " + vstr(v);
+    }
+    if (in_u64) {
+        ST::string a = ST::string::from_uint64((uint64_t)v, base, upper);
+        if (str_of(a) != want) return "from_uint64(" + vstr(v) + ", " + verif::num(base) + (upper ? ", upper" : "") + ") gives " + verif::quoted(str_of(a)) + ", canonical text is " + verif::quoted(want);
+        if (!upper) {
+            ST::string b = ST::string::from_uint64((uint64_t)v, base);
+            if (str_of(b) != want) return "from_uint64(" + vstr(v) + ", " + verif::num(base) + ") gives " + verif::quoted(str_of(b)) + ", canonical text is " + verif::quoted(want);
+            if (base == 10) { ST::string c = ST::string::from_uint64((uint64_t)v); if (str_of(c) != want) return "from_uint64(" + vstr(v) + ") gives " + verif::quoted(str_of(c)); }
+        }
+        ST::conversion_result cr;
+        uint64_t g = printed.to_uint64(cr, base);
+        if (g != (uint64_t)v || !cr.ok() || !cr.full_match())
+            return "to_uint64(result, " + verif::num(base) + ") of " + verif::quoted(want) + " gives " + verif::unum(g) + " ok=" + (cr.ok() ? "1" : "0") + " full_match=" + (cr.full_match() ? "1" : "0") + ", expected " + vstr(v) + " with ok and full_match";
+        if (printed.to_uint64(base) != (uint64_t)v) return "to_uint64(" + verif::num(base) + ") of " + verif::quoted(want) + " gives " + verif::unum(printed.to_uint64(base)) + ", expected " + vstr(v);
+    }
+
+    // a conversion_result that already went through another call: every one of the four earlier states must be overwritten
+    for (int p = 0; p < 4; p++) {
+        ST::conversion_result cr;
+        if (!prime(cr, p, why)) return why;
+        T got;
+        if constexpr (std::is_signed<T>::value) got = static_cast<T>(Conv<long long>::get(printed, cr, base)); else got = static_cast<T>(Conv<unsigned long long>::get(printed, cr, base));
+        if (got != v || !cr.ok() || !cr.full_match())
+            return std::string(std::is_signed<T>::value ? "to_long_long" : "to_ulong_long") + "(result, " + verif::num(base) + ") of " + verif::quoted(want) + " with a conversion_result last used on " +
+                   verif::quoted(std::string(kPrimers[p].text, kPrimers[p].n)) + " gives " + vstr(got) + " ok=" + (cr.ok() ? "1" : "0") + " full_match=" + (cr.full_match() ? "1" : "0") + ", expected " + vstr(v) + " with ok and full_match";
+        // ... and the other way round: the flags of the good parse must not survive a later call on the primer text
+        long back = primer_string(p).to_long(cr, base);
+        if (cr.ok() != kPrimers[p].ok || cr.full_match() != kPrimers[p].full || back != (kPrimers[p].ok ? 1 : 0))
+            return "to_long(result, " + verif::num(base) + ") of " + verif::quoted(std::string(kPrimers[p].text, kPrimers[p].n)) + " with a conversion_result last used on " + verif::quoted(want) +
+                   " gives " + verif::num(back) + " ok=" + (cr.ok() ? "1" : "0") + " full_match=" + (cr.full_match() ? "1" : "0");
+    }
+
+    // the other ST::format entry points and the character-like integer types, same digits for bases 10/16/8/2
+    const int fk = base == 10 ? 0 : base == 16 ? (upper ? 2 : 1) : base == 8 ? 3 : base == 2 ? 4 : -1;
+    if (fk >= 0) {
+        static const char *const fmts[5] = {"{}", "{x}", "{X}", "{o}", "{b}"};
+        const char *fmt = fmts[fk];
+        C12_EXPECT_FORMAT(ST::format(ST::check_validity, fmt, v), "ST::format(check_validity, fmt, v)");
+        C12_EXPECT_FORMAT(ST::format(ST::assume_valid, fmt, v), "ST::format(assume_valid, fmt, v)");
+        C12_EXPECT_FORMAT(ST::format_latin_1(fmt, v), "ST::format_latin_1(fmt, v)");
+        switch (fk) {
+        case 0: C12_EXPECT_FORMAT("{}"_stfmt(v), "\"{}\"_stfmt(v)"); C12_EXPECT_FORMAT("{d}"_stfmt(v), "\"{d}\"_stfmt(v)"); break;
+        case 1: C12_EXPECT_FORMAT("{x}"_stfmt(v), "\"{x}\"_stfmt(v)"); break;
+        case 2: C12_EXPECT_FORMAT("{X}"_stfmt(v), "\"{X}\"_stfmt(v)"); break;
+        case 3: C12_EXPECT_FORMAT("{o}"_stfmt(v), "\"{o}\"_stfmt(v)"); break;
+        default: C12_EXPECT_FORMAT("{b}"_stfmt(v), "\"{b}\"_stfmt(v)"); break;
+        }
+        if (fits_in<signed char>(v)) C12_EXPECT_FORMAT(ST::format(fmt, (signed char)v), "ST::format(fmt, signed char)");
+        if (fits_in<unsigned char>(v)) C12_EXPECT_FORMAT(ST::format(fmt, (unsigned char)v), "ST::format(fmt, unsigned char)");
+        if (fits_in<char>(v)) C12_EXPECT_FORMAT(ST::format(fmt, (char)v), "ST::format(fmt, char)");
+        if (fits_in<char8_t>(v)) C12_EXPECT_FORMAT(ST::format(fmt, (char8_t)v), "ST::format(fmt, char8_t)");
+        if (fits_in<char16_t>(v)) C12_EXPECT_FORMAT(ST::format(fmt, (char16_t)v), "ST::format(fmt, char16_t)");
+        if (fits_in<char32_t>(v)) C12_EXPECT_FORMAT(ST::format(fmt, (char32_t)v), "ST::format(fmt, char32_t)");
+        if (fits_in<wchar_t>(v)) C12_EXPECT_FORMAT(ST::format(fmt, (wchar_t)v), "ST::format(fmt, wchar_t)");
+        // several numbers in one call, explicit positions
+        ST::string two = ST::format((std::string(fmt) + "|" + fmt).c_str(), v, v);
+        if (str_of(two) != want + "|" + want) return std::string("ST::format(\"") + fmt + "|" + fmt + "\", v, v) of " + vstr(v) + " gives " + verif::quoted(str_of(two));
+    }
+    return std::string();
+}
+#undef C12_EXPECT_FORMAT
 
 template <class T> std::string check_print(T v, int base, bool upper) {
     try {
@@ -166,6 +351,9 @@ template <class T> std::string check_print(T v, int base, bool upper) {
             if constexpr (sizeof(long) > sizeof(T)) if (!parse_back<long>(s, base, v, why)) return why;
             if constexpr (sizeof(long long) > sizeof(T)) if (!parse_back<long long>(s, base, v, why)) return why;
         }
+
+        why = check_print_extras<T>(v, base, upper, want, s);
+        if (!why.empty()) return why;
 
         // the other two printers give the same digits for bases 10, 16, 8, 2
         const char *fmt = nullptr, *fmt2 = nullptr;
@@ -263,7 +451,69 @@ bool parse_one(const ST::string &s, int base, const ref::Parsed<V> &p, size_t si
     return true;
 }
 
-std::string check_parse(const uint8_t *bytes, size_t n, int base, ParseFacts *facts) {
+// --- all eleven conversion_result overloads behind one index (0..9 integers, 10 to_bool), value widened to 64 bits
+const char *const kMemberNames[11] = {"to_short", "to_int", "to_long", "to_long_long", "to_ushort", "to_uint", "to_ulong", "to_ulong_long", "to_int64", "to_uint64", "to_bool"};
+uint64_t call_member(int k, const ST::string &s, ST::conversion_result &cr, int base) {
+    switch (k) {
+    case 0: return (uint64_t)(int64_t)s.to_short(cr, base);
+    case 1: return (uint64_t)(int64_t)s.to_int(cr, base);
+    case 2: return (uint64_t)(int64_t)s.to_long(cr, base);
+    case 3: return (uint64_t)(int64_t)s.to_long_long(cr, base);
+    case 4: return (uint64_t)s.to_ushort(cr, base);
+    case 5: return (uint64_t)s.to_uint(cr, base);
+    case 6: return (uint64_t)s.to_ulong(cr, base);
+    case 7: return (uint64_t)s.to_ulong_long(cr, base);
+    case 8: return (uint64_t)s.to_int64(cr, base);
+    case 9: return (uint64_t)s.to_uint64(cr, base);
+    default: return (uint64_t)s.to_bool(cr);              // base 0 only
+    }
+}
+
+struct ParseWant {                                       // what the C library says, per member
+    uint64_t value[11]; bool ok[11], full[11];
+    bool bool_open = false;                              // to_bool: long value non-zero but zero after narrowing to int (either answer accepted)
+};
+
+bool ci_word(const uint8_t *b, size_t n, const char *w) {
+    if (n != strlen(w)) return false;
+    for (size_t i = 0; i < n; i++) { uint8_t ch = b[i]; if (ch >= 'A' && ch <= 'Z') ch = uint8_t(ch + 32); if (ch != (uint8_t)w[i]) return false; }
+    return true;
+}
+
+enum { kRoutes = 10 };
+const char *const kRouteNames[kRoutes] = {"route:from_validated", "route:from_validated(char8_t)", "route:ctor(char8_t*)", "route:ctor(std::u8string)", "route:ctor(string_view)",
+                                          "route:from_utf16(ASCII)", "route:substr-of-longer", "route:moved-into", "route:default-constructed", "route:operator+="};
+// The subject string, built through different public constructors (all hold exactly the bytes given).
+ST::string make_subject(const char *p, size_t n, int route, int *used) {
+    *used = route;
+    switch (route) {
+    case 1: return ST::string::from_validated(reinterpret_cast<const char8_t *>(p), n);
+    case 2: return ST::string(reinterpret_cast<const char8_t *>(p), n, ST::assume_valid);
+    case 3: return ST::string(std::u8string(reinterpret_cast<const char8_t *>(p), n), ST::assume_valid);
+    case 4: return ST::string(std::string_view(p, n), ST::assume_valid);
+    case 5: {
+        bool ascii = true; for (size_t i = 0; i < n; i++) if ((unsigned char)p[i] >= 0x80) ascii = false;
+        if (!ascii) break;
+        std::u16string w(n, u'\0'); for (size_t i = 0; i < n; i++) w[i] = (char16_t)(unsigned char)p[i];
+        return ST::string::from_utf16(w.data(), n);
+    }
+    case 6: {
+        ST::string big = ST::string::from_validated("9", 1) + ST::string::from_validated(p, n) + ST::string::from_validated("9x", 2);
+        return big.substr(1, n);
+    }
+    case 7: { ST::string tmp = ST::string::from_validated(p, n); ST::string moved(std::move(tmp)); return moved; }
+    case 8: if (n == 0) return ST::string(); break;
+    case 9: { ST::string acc; size_t half = n / 2; acc += ST::string::from_validated(p, half); acc += ST::string::from_validated(p + half, n - half); return acc; }
+    default: break;
+    }
+    *used = 0;
+    return ST::string::from_validated(p, n);
+}
+
+std::string flags_text(bool ok, bool full) { return std::string("ok=") + (ok ? "1" : "0") + " full_match=" + (full ? "1" : "0"); }
+
+// reuse: 0 = one (member, primer) pair chosen by a hash of the case; 1 = every member x every primer
+std::string check_parse(const uint8_t *bytes, size_t n, int base, ParseFacts *facts, int route = 0, int reuse = 0, int *route_used = nullptr) {
     // what the library gets: a string built from an exact-size block (no terminator to lean on)
     verif::Exact<char> src(reinterpret_cast<const char *>(bytes), n);
     // what the C library gets from the harness: the same bytes followed by a NUL
@@ -274,7 +524,10 @@ std::string check_parse(const uint8_t *bytes, size_t n, int base, ParseFacts *fa
         const ref::Parsed<unsigned long> pul = ref::c_strtoul(z.data(), base);
         const ref::Parsed<unsigned long long> pull = ref::c_strtoull(z.data(), base);
         if (facts) { facts->consumed = pl.consumed; facts->range = pl.range || pll.range || pul.range || pull.range; }
-        ST::string s = ST::string::from_validated(src.data(), n);
+        int used = 0;
+        ST::string s = make_subject(src.data(), n, route, &used);
+        if (route_used) *route_used = used;
+        if (s.size() != n || (n && memcmp(s.c_str(), src.data(), n) != 0)) return std::string("subject built by ") + kRouteNames[used] + " does not hold the given bytes";
         std::string why;
         if (!parse_one<short>(s, base, pl, n, why)) return why;
         if (!parse_one<int>(s, base, pl, n, why)) return why;
@@ -284,6 +537,92 @@ std::string check_parse(const uint8_t *bytes, size_t n, int base, ParseFacts *fa
         if (!parse_one<unsigned int>(s, base, pul, n, why)) return why;
         if (!parse_one<unsigned long>(s, base, pul, n, why)) return why;
         if (!parse_one<unsigned long long>(s, base, pull, n, why)) return why;
+
+        // ---- per-member expectations for the index-driven checks below
+        ParseWant w;
+        auto put = [&](int k, uint64_t v, size_t consumed) { w.value[k] = v; w.ok[k] = consumed != 0; w.full[k] = consumed == n; };
+        put(0, (uint64_t)(int64_t) static_cast<short>(pl.value), pl.consumed);
+        put(1, (uint64_t)(int64_t) static_cast<int>(pl.value), pl.consumed);
+        put(2, (uint64_t)(int64_t)pl.value, pl.consumed);
+        put(3, (uint64_t)(int64_t)pll.value, pll.consumed);
+        put(4, (uint64_t) static_cast<unsigned short>(pul.value), pul.consumed);
+        put(5, (uint64_t) static_cast<unsigned int>(pul.value), pul.consumed);
+        put(6, (uint64_t)pul.value, pul.consumed);
+        put(7, (uint64_t)pull.value, pull.consumed);
+        put(8, (uint64_t) static_cast<int64_t>(pll.value), pll.consumed);
+        put(9, (uint64_t) static_cast<uint64_t>(pull.value), pull.consumed);
+        const int nmembers = base == 0 ? 11 : 10;         // to_bool has no base argument: it belongs to the base-0 cases
+        if (base == 0) {
+            // to_bool: the words "true"/"false" (any letter case, whole text) are values of their own with both flags; everything
+            // else is the integer reading, non-zero <=> true.
+            if (ci_word(bytes, n, "true")) { w.value[10] = 1; w.ok[10] = w.full[10] = true; }
+            else if (ci_word(bytes, n, "false")) { w.value[10] = 0; w.ok[10] = w.full[10] = true; }
+            else { put(10, static_cast<int>(pl.value) != 0, pl.consumed); w.bool_open = (pl.value != 0) != (static_cast<int>(pl.value) != 0); }
+        }
+        auto value_ok = [&](int k, uint64_t got) { return got == w.value[k] || (k == 10 && w.bool_open); };
+
+        // ---- the fixed-width aliases and to_bool: fresh conversion_result, and the overloads without one
+        for (int k = 8; k < nmembers; k++) {
+            ST::conversion_result cr;
+            uint64_t got = call_member(k, s, cr, base);
+            if (!value_ok(k, got) || cr.ok() != w.ok[k] || cr.full_match() != w.full[k])
+                return std::string(kMemberNames[k]) + "(result" + (k == 10 ? "" : ", " + verif::num(base)) + ") gives " + (k == 8 ? verif::num((int64_t)got) : verif::unum(got)) + " " +
+                       flags_text(cr.ok(), cr.full_match()) + "; from the C library's reading the expected result is " + (k == 8 ? verif::num((int64_t)w.value[k]) : verif::unum(w.value[k])) + " " + flags_text(w.ok[k], w.full[k]);
+            uint64_t got2 = k == 8 ? (uint64_t)s.to_int64(base) : k == 9 ? (uint64_t)s.to_uint64(base) : (uint64_t)s.to_bool();
+            if (!value_ok(k, got2))
+                return std::string(kMemberNames[k]) + "(" + (k == 10 ? "" : verif::num(base)) + ") gives " + (k == 8 ? verif::num((int64_t)got2) : verif::unum(got2)) + ", expected " +
+                       (k == 8 ? verif::num((int64_t)w.value[k]) : verif::unum(w.value[k]));
+        }
+
+        // ---- default base argument (= 0) of every overload
+        if (base == 0) {
+            ST::conversion_result c0, c1, c2, c3, c4, c5, c6, c7, c8, c9;
+            const uint64_t with_cr[10] = {(uint64_t)(int64_t)s.to_short(c0), (uint64_t)(int64_t)s.to_int(c1), (uint64_t)(int64_t)s.to_long(c2), (uint64_t)(int64_t)s.to_long_long(c3), (uint64_t)s.to_ushort(c4),
+                                          (uint64_t)s.to_uint(c5), (uint64_t)s.to_ulong(c6), (uint64_t)s.to_ulong_long(c7), (uint64_t)s.to_int64(c8), (uint64_t)s.to_uint64(c9)};
+            const uint64_t without[10] = {(uint64_t)(int64_t)s.to_short(), (uint64_t)(int64_t)s.to_int(), (uint64_t)(int64_t)s.to_long(), (uint64_t)(int64_t)s.to_long_long(), (uint64_t)s.to_ushort(),
+                                          (uint64_t)s.to_uint(), (uint64_t)s.to_ulong(), (uint64_t)s.to_ulong_long(), (uint64_t)s.to_int64(), (uint64_t)s.to_uint64()};
+            const ST::conversion_result *crs[10] = {&c0, &c1, &c2, &c3, &c4, &c5, &c6, &c7, &c8, &c9};
+            for (int k = 0; k < 10; k++) {
+                if (with_cr[k] != w.value[k] || crs[k]->ok() != w.ok[k] || crs[k]->full_match() != w.full[k])
+                    return std::string(kMemberNames[k]) + "(result) with the default base gives " + verif::unum(with_cr[k]) + " " + flags_text(crs[k]->ok(), crs[k]->full_match()) +
+                           "; the C library with base 0 gives " + verif::unum(w.value[k]) + " " + flags_text(w.ok[k], w.full[k]);
+                if (without[k] != w.value[k])
+                    return std::string(kMemberNames[k]) + "() with the default base gives " + verif::unum(without[k]) + "; the C library with base 0 gives " + verif::unum(w.value[k]);
+            }
+        }
+
+        // ---- one conversion_result object used for several calls: each call sets the flags afresh
+        auto reuse_pair = [&](int k, int p) -> bool {
+            ST::conversion_result cr;
+            if (!prime(cr, p, why)) return false;
+            uint64_t got = call_member(k, s, cr, base);
+            if (!value_ok(k, got) || cr.ok() != w.ok[k] || cr.full_match() != w.full[k]) {
+                why = std::string(kMemberNames[k]) + "(result" + (k == 10 ? "" : ", " + verif::num(base)) + ") with a conversion_result last used on " + verif::quoted(std::string(kPrimers[p].text, kPrimers[p].n)) +
+                      " (" + flags_text(kPrimers[p].ok, kPrimers[p].full) + ") gives " + verif::unum(got) + " " + flags_text(cr.ok(), cr.full_match()) + "; expected " + verif::unum(w.value[k]) + " " + flags_text(w.ok[k], w.full[k]);
+                return false;
+            }
+            return true;
+        };
+        if (reuse) {
+            for (int k = 0; k < nmembers; k++) for (int p = 0; p < 4; p++) if (!reuse_pair(k, p)) return why;
+            // a chain through all members with one object, in an order that alternates between this text and the primers
+            ST::conversion_result chain;
+            for (int k = 0; k < nmembers; k++) {
+                uint64_t got = call_member(k, s, chain, base);
+                if (!value_ok(k, got) || chain.ok() != w.ok[k] || chain.full_match() != w.full[k])
+                    return std::string(kMemberNames[k]) + " in a chain of calls sharing one conversion_result gives " + verif::unum(got) + " " + flags_text(chain.ok(), chain.full_match()) + "; expected " +
+                           verif::unum(w.value[k]) + " " + flags_text(w.ok[k], w.full[k]);
+                const int p = (k + (int)n) & 3;
+                long b = primer_string(p).to_long(chain, 10);
+                if (chain.ok() != kPrimers[p].ok || chain.full_match() != kPrimers[p].full || b != (kPrimers[p].ok ? 1 : 0))
+                    return "to_long(result, 10) of " + verif::quoted(std::string(kPrimers[p].text, kPrimers[p].n)) + " after " + kMemberNames[k] + " on the same conversion_result gives " + verif::num(b) + " " + flags_text(chain.ok(), chain.full_match());
+            }
+        } else {
+            uint32_t h = 2166136261u;
+            for (size_t i = 0; i < n; i++) h = (h ^ bytes[i]) * 16777619u;
+            h = (h ^ (uint32_t)base) * 16777619u; h ^= h >> 15;
+            if (!reuse_pair((int)(h % (uint32_t)nmembers), (int)((h / 16) & 3))) return why;
+        }
     } catch (...) {
         return "unexpected " + verif::describe_current_exception();
     }
@@ -316,18 +655,172 @@ void label_base(Case &c, int base) {
     c.label(base == 0 ? "base:0" : base == 10 ? "base:10" : base == 16 ? "base:16" : base == 8 ? "base:8" : base == 2 ? "base:2" : base < 10 ? "base:3..9" : "base:11..36");
 }
 
-int run_parse_case(Case &c, const std::vector<uint8_t> &text, int base) {
+int run_parse_case(Case &c, const std::vector<uint8_t> &text, int base, int route = 0) {
     ParseFacts pf{0, false};
     if (c.want_text) c.text = render_parse(text.data(), text.size(), base);
-    std::string why = check_parse(text.data(), text.size(), base, &pf);
     const size_t n = text.size();
+    int used = 0;
+    // every (member, earlier state) pair of the shared-conversion_result check for ordinary sizes; one hashed pair for long texts
+    std::string why = check_parse(text.data(), n, base, &pf, route, n <= 256 ? 1 : 0, &used);
     c.label(n == 0 ? "parse:empty" : pf.consumed == 0 ? "parse:nothing-consumed" : pf.consumed == n ? "parse:full-match" : "parse:partial-match");
     if (pf.range) c.label("parse:out-of-range");
     if (std::find(text.begin(), text.end(), 0) != text.end()) c.label("parse:embedded-NUL");
+    if (n > 256) c.label(n >= 4096 ? "parse:text>=4096 bytes" : "parse:text 257..4095 bytes");
+    if (used) c.label(kRouteNames[used]);
+    if (base == 0) {
+        if (ci_word(text.data(), n, "true") || ci_word(text.data(), n, "false")) c.label("to_bool:word");
+        else c.label("to_bool:numeric-reading");
+    }
     label_base(c, base);
     c.nontrivial = (pf.consumed > 0 && pf.consumed < n) || pf.range;
+    if (c.want_text && used) c.text += std::string("; subject ") + kRouteNames[used];
     if (!why.empty()) return c.fail(why);
     return verif::CASE_OK;
+}
+
+// ---------------------------------------------------------------------------------------------
+// string_stream << integer / ST::format of an integer when the output already holds `fill` bytes: every fill level relative to
+// the in-object capacity (ST_STACK_STRING_SIZE) and its doublings, so that the digits are written across a capacity boundary;
+// further appends follow; everything is compared with a byte model.
+struct StreamCase {
+    int kind = 0;        // 0 int, 1 unsigned, 2 long, 3 unsigned long, 4 long long, 5 unsigned long long, 6 short, 7 unsigned short (both promote to int)
+    size_t fill = 0;     // 0..5000
+    int pre = 0;         // how the stream reached `fill` bytes (see prefill_names)
+    uint64_t bits = 0;   // the value
+    int tail = 0;        // what follows the number
+};
+const size_t kMaxFill = 5000;
+const char *const kPreNames[7] = {"pre:one-append", "pre:many-small-appends", "pre:grown-then-truncated", "pre:overfilled-then-erased", "pre:move-constructed", "pre:move-assigned-over-grown",
+                                  "pre:grown-then-emptied-then-refilled"};
+const char *const kKindNames[8] = {"int", "unsigned int", "long", "unsigned long", "long long", "unsigned long long", "short", "unsigned short"};
+inline char pattern_byte(size_t i) { return "abcdefghijklmnopqrstuvwxyzABCDEFGHIJKLMNOPQRSTUVWXYZ_-.,:;!?*/~@"[(i * 7 + i / 64) & 63]; }
+
+template <class F> auto with_stream_kind(int k, F &&f) {
+    switch (k & 7) {
+    case 0: return f(int{});
+    case 1: return f((unsigned int){});
+    case 2: return f(long{});
+    case 3: return f((unsigned long){});
+    case 4: return f((long long){});
+    case 5: return f((unsigned long long){});
+    case 6: return f(short{});
+    default: return f((unsigned short){});
+    }
+}
+std::string stream_number(int kind, uint64_t bits) {
+    return with_stream_kind(kind, [&](auto tag) { typedef decltype(tag) T; return ref::int_text(static_cast<T>(bits), 10, false); });
+}
+
+void build_prefill(ST::string_stream &a, const std::string &prefix, int pre) {
+    const size_t fill = prefix.size();
+    switch (pre) {
+    case 1: {                                             // many small appends through different entry points
+        size_t pos = 0; unsigned step = 1;
+        while (pos < fill) {
+            size_t len = std::min<size_t>(1 + (step * 37) % 97, fill - pos);
+            switch (step & 3) {
+            case 0: a.append(prefix.data() + pos, len); break;
+            case 1: { std::string piece(prefix, pos, len); a << piece.c_str(); break; }
+            case 2: a << ST::string::from_validated(prefix.data() + pos, len); break;
+            default: for (size_t i = 0; i < len; i++) a << prefix[pos + i]; break;
+            }
+            pos += len; step++;
+        }
+        break;
+    }
+    case 2: a.append(prefix.data(), fill); a.append_char('J', fill / 2 + 300); a.truncate(fill); break;
+    case 3: a.append(prefix.data(), fill); a.append_char('J', 77); a.erase(77); break;
+    case 6: a.append_char('J', 5000); a.truncate(); a.append(prefix.data(), fill); break;
+    default: a.append(prefix.data(), fill); break;
+    }
+}
+
+std::string check_stream(const StreamCase &sc) {
+    try {
+        std::string prefix(sc.fill, ' ');
+        for (size_t i = 0; i < sc.fill; i++) prefix[i] = pattern_byte(i);
+        const std::string num = stream_number(sc.kind, sc.bits);
+        ST::string_stream a;
+        build_prefill(a, prefix, sc.pre);
+        std::optional<ST::string_stream> other;
+        ST::string_stream *ss = &a;
+        if (sc.pre == 4) { other.emplace(std::move(a)); ss = &*other; }
+        else if (sc.pre == 5) { other.emplace(); other->append_char('J', 3000); *other = std::move(a); ss = &*other; }
+        if (ss->size() != sc.fill || (sc.fill && memcmp(ss->raw_buffer(), prefix.data(), sc.fill) != 0))
+            return std::string("string_stream does not hold the ") + verif::unum(sc.fill) + " bytes appended before the number (" + kPreNames[sc.pre] + ")";
+        std::string expect = prefix + num;
+        with_stream_kind(sc.kind, [&](auto tag) { typedef decltype(tag) T; *ss << static_cast<T>(sc.bits); return 0; });
+        const uint64_t second = ~sc.bits * 0x9E3779B97F4A7C15ull;
+        switch (sc.tail) {
+        case 1: *ss << "]"; expect += "]"; break;
+        case 2: with_stream_kind(sc.kind + 3, [&](auto tag) { typedef decltype(tag) T; *ss << '|' << static_cast<T>(second) << '.'; return 0; });
+                expect += "|" + stream_number(sc.kind + 3, second) + "."; break;
+        case 3: ss->append_char('#', 300); expect += std::string(300, '#'); break;
+        case 4: for (int i = 0; i < 3; i++) { with_stream_kind(sc.kind, [&](auto tag) { typedef decltype(tag) T; *ss << static_cast<T>(sc.bits); return 0; }); expect += num; } break;
+        default: break;
+        }
+        if (ss->size() != expect.size() || memcmp(ss->raw_buffer(), expect.data(), expect.size()) != 0) {
+            size_t d = 0; const size_t m = std::min(ss->size(), expect.size());
+            while (d < m && ss->raw_buffer()[d] == expect[d]) d++;
+            return std::string("string_stream holding ") + verif::unum(sc.fill) + " bytes (" + kPreNames[sc.pre] + ") << " + kKindNames[sc.kind & 7] + " " + num + " + tail " + verif::num(sc.tail) + ": size " +
+                   verif::unum(ss->size()) + ", expected " + verif::unum(expect.size()) + "; first difference at byte " + verif::unum(d) + ": stream has " +
+                   verif::quoted(std::string(ss->raw_buffer() + d, std::min<size_t>(24, ss->size() - d))) + ", model has " + verif::quoted(expect.substr(d, 24));
+        }
+        ST::string out = ss->to_string();
+        if (str_of(out) != expect) return "string_stream::to_string() differs from the stream's own bytes after << " + num + " at fill " + verif::unum(sc.fill);
+
+        // ST::format writes through the same kind of buffer: literal text of `fill` bytes, then the number, then more text
+        const std::string fmt = prefix + (sc.tail == 2 ? "{}|{}." : sc.tail == 4 ? "{}{}{}{}" : "{}") + (sc.tail == 1 ? "]" : "");
+        ST::string f = with_stream_kind(sc.kind, [&](auto tag) {
+            typedef decltype(tag) T; const T v = static_cast<T>(sc.bits);
+            if (sc.tail == 2) return with_stream_kind(sc.kind + 3, [&](auto tag2) { typedef decltype(tag2) T2; return ST::format(fmt.c_str(), v, static_cast<T2>(second)); });
+            if (sc.tail == 4) return ST::format(fmt.c_str(), v, v, v, v);
+            return ST::format(fmt.c_str(), v);
+        });
+        std::string fexpect = expect;
+        if (sc.tail == 3) fexpect.resize(fexpect.size() - 300);
+        if (str_of(f) != fexpect) {
+            size_t d = 0; const size_t m = std::min(f.size(), fexpect.size());
+            while (d < m && f.c_str()[d] == fexpect[d]) d++;
+            return std::string("ST::format(<") + verif::unum(sc.fill) + " literal bytes>{}..., " + kKindNames[sc.kind & 7] + " " + num + ") gives " + verif::unum(f.size()) + " bytes, expected " +
+                   verif::unum(fexpect.size()) + "; first difference at byte " + verif::unum(d) + ": " + verif::quoted(std::string(f.c_str() + d, std::min<size_t>(24, f.size() - d))) + " vs " + verif::quoted(fexpect.substr(d, 24));
+        }
+    } catch (...) {
+        return "unexpected " + verif::describe_current_exception();
+    }
+    return std::string();
+}
+
+std::string render_stream(const StreamCase &sc) {
+    return std::string("C12 stream: string_stream with ") + verif::unum(sc.fill) + " bytes (" + kPreNames[sc.pre] + ") << " + kKindNames[sc.kind & 7] + " " + stream_number(sc.kind, sc.bits) +
+           ", tail " + verif::num(sc.tail) + "; bytes compared with a model, same through ST::format with " + verif::unum(sc.fill) + " literal bytes before {}";
+}
+const size_t kStreamBytes = 14;
+void encode_stream(const StreamCase &sc, uint8_t *o) {
+    o[0] = 0xFD; o[1] = (uint8_t)sc.kind; o[2] = (uint8_t)sc.fill; o[3] = (uint8_t)(sc.fill >> 8); o[4] = (uint8_t)sc.pre;
+    for (int i = 0; i < 8; i++) o[5 + i] = (uint8_t)(sc.bits >> (8 * i));
+    o[13] = (uint8_t)sc.tail;
+}
+// does the number start before a capacity step (in-object capacity and its doublings) and end after it / exactly on it?
+void stream_boundary(const StreamCase &sc, bool &straddles, bool &ends_on) {
+    const size_t len = stream_number(sc.kind, sc.bits).size();
+    straddles = ends_on = false;
+    for (size_t cap = ST_STACK_STRING_SIZE; cap <= 16384; cap *= 2) {
+        if (sc.fill < cap && sc.fill + len > cap) straddles = true;
+        if (sc.fill + len == cap) ends_on = true;
+    }
+}
+int run_stream_case(Case &c, const StreamCase &sc) {
+    if (c.want_text) c.text = render_stream(sc);
+    bool straddles, ends_on; stream_boundary(sc, straddles, ends_on);
+    c.label("stream:prefilled");
+    c.label(kPreNames[sc.pre]);
+    c.label(sc.fill == 0 ? "fill:0" : sc.fill < ST_STACK_STRING_SIZE ? "fill:in-object" : sc.fill < 1024 ? "fill:256..1023" : "fill:1024..5000");
+    if (straddles) c.label("stream:number-straddles-capacity-step");
+    if (ends_on) c.label("stream:number-ends-on-capacity-step");
+    c.nontrivial = straddles || ends_on || sc.fill >= ST_STACK_STRING_SIZE;
+    std::string why = check_stream(sc);
+    return why.empty() ? verif::CASE_OK : c.fail(why);
 }
 
 const int kPrintBases[] = {10, 16, 8, 2, 10, 16, 8, 2, 2, 3, 4, 5, 6, 7, 8, 9, 10, 11, 12, 13, 14, 15, 16, 17, 18, 19,
@@ -363,6 +856,77 @@ int verif_case(const uint8_t *data, size_t size, Case &c) {
         while (!r.exhausted()) text.push_back(r.u8());
         c.label("directed-parse");
         return run_parse_case(c, text, base);
+    }
+
+    if (mode == 0xFD) {                                   // directed stream case
+        StreamCase sc;
+        sc.kind = r.u8() & 7; unsigned f = r.u8(); f |= (unsigned)r.u8() << 8; sc.fill = f > kMaxFill ? kMaxFill : f; sc.pre = r.u8() % 7; sc.bits = r.bits64(); sc.tail = r.u8() % 5;
+        c.label("directed-stream");
+        return run_stream_case(c, sc);
+    }
+
+    // The upper five bits of the mode byte select the classes added later; 0..21 and 31 keep the original two directions.
+    const unsigned cls = mode >> 3;
+    if (cls >= 22 && cls <= 25) {
+        // ------------------------------------------------------------------ number into a pre-filled stream
+        StreamCase sc;
+        sc.kind = (int)r.idx(8);
+        sc.pre = (int)r.idx(7);
+        sc.tail = (int)r.idx(5);
+        switch (r.idx(4)) {                                // the value
+        case 0: sc.bits = r.range(0, 1300); if (r.flag()) sc.bits = 0 - sc.bits; break;
+        case 1: { static const uint64_t ends[] = {0x8000000000000000ull, 0x7FFFFFFFFFFFFFFFull, 0xFFFFFFFFFFFFFFFFull, 0x80000000ull, 0x7FFFFFFFull, 0xFFFFFFFFull, 0x8000ull, 0x7FFFull, 0xFFFFull,
+                                                 0xFFFFFFFF80000000ull, 0xFFFFFFFFFFFF8000ull, 0}; sc.bits = r.pick(ends); break; }
+        default: sc.bits = r.bits64(); break;
+        }
+        const size_t len = stream_number(sc.kind, sc.bits).size();
+        if (r.chance(64)) sc.fill = (size_t)r.range(0, kMaxFill);
+        else {                                             // next to a capacity step: the number starts 0..len+1 bytes before it, or just after it
+            static const uint16_t steps[] = {256, 512, 1024, 2048, 4096, 256, 256, 512};
+            const size_t cap = r.pick(steps);
+            const size_t back = (size_t)r.range(0, len + 3);
+            sc.fill = cap + 2 - std::min(back, cap + 2);
+        }
+        return run_stream_case(c, sc);
+    }
+    if (cls >= 26 && cls <= 27) {
+        // ------------------------------------------------------------------ long texts (several KB), parse direction
+        const int base = r.pick(kParseBases);
+        static const uint16_t runs[] = {0, 1, 255, 256, 257, 1000, 4095, 4096, 5000, 64, 300, 2048};
+        std::vector<uint8_t> text;
+        c.label("text:long");
+        const int db = base ? base : 10;
+        const unsigned shape = (unsigned)r.range(0, 3);
+        if (shape != 3) { size_t nws = r.pick(runs); for (size_t i = 0; i < nws; i++) text.push_back((uint8_t)kSpaces[(i * 5 + nws) % sizeof kSpaces]); }
+        switch (r.range(0, 2)) { case 1: text.push_back('-'); break; case 2: text.push_back('+'); break; default: break; }
+        if ((base == 0 || base == 16) && r.flag()) { text.push_back('0'); text.push_back('x'); }
+        if (shape == 0 || shape == 3) { size_t nz = r.pick(runs); text.insert(text.end(), nz, (uint8_t)'0'); }
+        if (shape == 1) {                                  // a digit run far beyond every result type
+            size_t nd = r.pick(runs); uint8_t seed = r.u8();
+            for (size_t i = 0; i < nd; i++) text.push_back((uint8_t)digit_char((unsigned)((i * 7 + seed) % (unsigned)db), (i & 8) != 0));
+        }
+        unsigned ndig = (unsigned)r.range(0, 20);
+        for (unsigned i = 0; i < ndig; i++) { uint8_t b = r.u8(); text.push_back((uint8_t)digit_char(b % (unsigned)db, (b & 0x80) != 0)); }
+        if (shape == 2) {                                  // an embedded NUL (or other stopper) with a long continuation behind it
+            text.push_back(r.pick(kTails)); size_t nd = r.pick(runs);
+            for (size_t i = 0; i < nd; i++) text.push_back((uint8_t)('0' + (i % 10)));
+        }
+        if (r.flag()) text.push_back(r.pick(kTails));
+        return run_parse_case(c, text, base, (int)r.idx(kRoutes));
+    }
+    if (cls >= 28 && cls <= 30) {
+        // ------------------------------------------------------------------ to_bool: the two words, near misses, numbers (base 0)
+        std::vector<uint8_t> text;
+        c.label("text:bool-words");
+        static const char *const words[] = {"true", "false", "true", "false", "true", "false", "true", "false", "tru", "truee", "fals", "falsee", "t", "f", "yes", "no", "on", "1", "0", "-1", "0x10", "010", "4294967296", "-4294967296",
+                                            "8589934592", "9223372036854775807", "9223372036854775808", "-9223372036854775808", "-9223372036854775809", "18446744073709551616", "00", "0x0", "+0", " 1", "2147483648"};
+        const char *wd = r.pick(words);
+        const unsigned deco = (unsigned)r.range(0, 15);             // 0 and 8..15: the bare word
+        if (deco == 1) text.push_back(' '); else if (deco == 2) text.push_back('\t'); else if (deco == 3) text.push_back('+');
+        uint8_t casebits = r.u8();
+        for (size_t i = 0; wd[i]; i++) { uint8_t ch = (uint8_t)wd[i]; if (ch >= 'a' && ch <= 'z' && (casebits >> (i & 7) & 1)) ch = uint8_t(ch - 32); text.push_back(ch); }
+        if (deco == 4) text.push_back(' '); else if (deco == 5) text.push_back(0); else if (deco == 6) { text.push_back(0); text.push_back('1'); } else if (deco == 7) text.push_back('e');
+        return run_parse_case(c, text, 0, (int)r.idx(kRoutes));
     }
 
     if ((mode & 1) == 0) {
@@ -461,7 +1025,7 @@ int verif_case(const uint8_t *data, size_t size, Case &c) {
             text.push_back(b < 224 ? (uint8_t)kAlphabet[b % sizeof kAlphabet] : r.u8());
         }
     }
-    return run_parse_case(c, text, base);
+    return run_parse_case(c, text, base, (int)r.idx(kRoutes));
 }
 
 // ---------------------------------------------------------------------------------------------
@@ -550,7 +1114,54 @@ long verif_enumerate(int shard, int nshards, int tier, verif::EnumReport &r) {
             r.samples.push_back(render_parse((const uint8_t *)sh, sn, first % 3 == 0 ? 0 : first % 3 == 1 ? 16 : 36));
         }
     }
+    // (d) to_bool (and every other member, base 0): every letter-case variant of the two words, bare and with one byte before / after
+    {
+        static const char *const wordsE[2] = {"true", "false"};
+        static const uint8_t extra[] = {' ', 0x00, '1', 'e', '\t', '+', 0xFF};
+        long idx = 0;
+        for (int wi = 0; wi < 2; wi++) {
+            const size_t wl = strlen(wordsE[wi]);
+            for (unsigned mask = 0; mask < (1u << wl); mask++) {
+                if ((idx++ % nshards) != shard) continue;
+                uint8_t w[8];
+                for (size_t i = 0; i < wl; i++) w[i] = (mask >> i & 1) ? uint8_t(wordsE[wi][i] - 32) : (uint8_t)wordsE[wi][i];
+                if (!e.parse(w, wl, 0) || !e.parse(w, wl, 36) || !e.parse(w, wl - 1, 0)) return r.evaluations;
+                for (uint8_t x : extra) {
+                    uint8_t t[8];
+                    memcpy(t, w, wl); t[wl] = x; if (!e.parse(t, wl + 1, 0)) return r.evaluations;
+                    t[0] = x; memcpy(t + 1, w, wl); if (!e.parse(t, wl + 1, 0)) return r.evaluations;
+                }
+            }
+        }
+    }
+    // (e) a number streamed / formatted into output that already holds `fill` bytes: every fill level 0..5000 x 8 argument types x
+    //     {most negative or largest, largest, a mid-size value}, pre-state and tail rotating
+    for (size_t fill = (size_t)shard; fill <= kMaxFill; fill += (size_t)nshards) {
+        for (int kind = 0; kind < 8; kind++) {
+            static const uint64_t vals[3] = {0x8000000000000000ull, 0x7FFFFFFFFFFFFFFFull, 1234567};
+            for (int vi = 0; vi < 3; vi++) {
+                StreamCase sc; sc.kind = kind; sc.fill = fill; sc.bits = vals[vi];
+                if (kind == 0 || kind == 1) sc.bits = vi == 0 ? 0x80000000ull : vi == 1 ? 0x7FFFFFFFull : 1234567;
+                if (kind == 6 || kind == 7) sc.bits = vi == 0 ? 0x8000ull : vi == 1 ? 0x7FFFull : 12345;
+                if ((kind & 1) && kind < 6 && vi == 0) sc.bits = ~0ull;          // unsigned: all ones
+                sc.pre = (int)((fill + (size_t)kind * 3 + (size_t)vi) % 7); sc.tail = (int)((fill / 7 + (size_t)kind + (size_t)vi * 2) % 5);
+                encode_stream(sc, e.cur);
+                verif::set_current(e.cur, kStreamBytes);
+                r.evaluations++;
+                bool straddles, ends_on; stream_boundary(sc, straddles, ends_on);
+                if (straddles || ends_on || fill >= ST_STACK_STRING_SIZE) r.nontrivial++;
+                std::string why = check_stream(sc);
+                if (!why.empty()) {
+                    if (r.failure.empty()) { r.failure = why; r.failing_case = render_stream(sc); r.failing_bytes.assign(e.cur, e.cur + kStreamBytes); }
+                    return r.evaluations;
+                }
+                if (shard == 1 && fill == 241 && kind == 4 && vi == 0 && r.want_sample()) r.samples.push_back(render_stream(sc));
+            }
+        }
+    }
     if (shard == 0) {
+        r.exhausted.push_back("to_bool and all integer members, base 0: all 16 + 32 letter-case variants of \"true\" / \"false\", bare, shortened by one, and with one of {space NUL 1 e tab + 0xFF} before or after");
+        r.exhausted.push_back("stream: every fill level 0..5000 of a string_stream / ST::format output x 8 integer argument types x 3 values (extremes, mid-size), pre-state (7) and tail (5) rotating");
         r.exhausted.push_back("print: all 65536 short and all 65536 unsigned short values x bases 2..36 x both letter cases (9,175,040 values x printers x parse-back)");
         r.exhausted.push_back("print: boundary tables of int/long/long long and unsigned counterparts (0, +-1, min, min+1, max, max-1, 2^k+-1, b^k+-1 for b=3..36) x bases 2..36 x both cases");
         r.exhausted.push_back(std::string("parse: every byte string of length 0..") + (tier == 0 ? "5" : "6") +
@@ -572,4 +1183,11 @@ void verif_corpus(std::vector<std::vector<uint8_t>> &out) {
     directed_print_bytes(b, 0, 10 - 2, false, 0x80000000ull); out.push_back(std::vector<uint8_t>(b, b + 12));
     out.push_back({0, 0, 0, 0});
     out.push_back({1, 0, 0, 0, 0, 1, '7'});
+    parse_seed(0, "TrUe", 4); parse_seed(0, "false\0", 6); parse_seed(0, "4294967296", 10);
+    uint8_t sb[kStreamBytes];
+    StreamCase sc; sc.kind = 4; sc.fill = 250; sc.bits = 0x8000000000000000ull; sc.tail = 2; encode_stream(sc, sb); out.push_back(std::vector<uint8_t>(sb, sb + kStreamBytes));
+    sc.kind = 1; sc.fill = 1020; sc.pre = 4; sc.bits = 0xFFFFFFFFull; sc.tail = 3; encode_stream(sc, sb); out.push_back(std::vector<uint8_t>(sb, sb + kStreamBytes));
+    out.push_back({22 << 3, 0, 0, 0, 0, 0, 0, 0, 0});
+    out.push_back({26 << 3, 0, 0, 0, 0, 0, 0, 0, 0});
+    out.push_back({28 << 3, 0, 0, 0, 0, 0, 0, 0, 0});
 }
